@@ -53,6 +53,34 @@ class CallVal:
         return f"{self.func}({', '.join(a)})"
 
 
+@dataclass(frozen=True)
+class RecordVal:
+    """Value of a NamedTuple / dataclass construction whose arguments are all constants."""
+    cls: str
+    fields: tuple      # ((name, value), ...)
+
+    def get(self, name, default=None):
+        for k, v in self.fields:
+            if k == name:
+                return v
+        return default
+
+    def has(self, name):
+        return any(k == name for k, _ in self.fields)
+
+    def __repr__(self):
+        return f"{self.cls}({', '.join(f'{k}={v!r}' for k, v in self.fields)})"
+
+
+def record_fields(repo: Repo, ci: ClassInfo) -> Optional[List[str]]:
+    """field names, in order, of a NamedTuple / dataclass defined in the repo; None for other classes"""
+    if not any(b.split(".")[-1] in ("NamedTuple",) for b in ci.base_names) and \
+            not any("dataclass" in ast.unparse(d) for d in ci.node.decorator_list):
+        return None
+    return [st.target.id for st in ci.node.body if isinstance(st, ast.AnnAssign) and isinstance(st.target, ast.Name)
+            and "ClassVar" not in ast.unparse(st.annotation)]
+
+
 ENUM_BASES = {"Enum", "IntEnum", "IntFlag", "Flag", "LookupIntEnum", "StrEnum"}
 
 
@@ -222,6 +250,9 @@ class ConstEval:
                 r = hook(n, fn, args, dict(kwargs), local)
                 if r is not None:
                     return r
+            r = self._call_repo(n, fn, args, dict(kwargs), local)
+            if r is not None:
+                return r
             if isinstance(n.func, ast.Attribute) and n.func.attr == "get" and args and is_const(args[0]):
                 base = self.ev(n.func.value, local)
                 if isinstance(base, dict) and is_const(list(base.keys())):
@@ -247,6 +278,102 @@ class ConstEval:
                 pass
             return Sym(src(n))
         return Sym(src(n))
+
+    # ---- calls into the repository: record construction and small pure functions, evaluated by interpretation
+    def _call_repo(self, n: ast.Call, fn: str, args, kwargs, local):
+        if self._depth > 40 or any(isinstance(a, Sym) and a.text.startswith("*") for a in args):
+            return None
+        func = n.func
+        recv_val = None
+        ci = target = None
+        if isinstance(func, ast.Name) or (isinstance(func, ast.Attribute) and ap(func)):
+            ci = self.repo.resolve_class(ap(func), self.mod) if ap(func) else None
+        if ci is not None and not is_enum_class(self.repo, ci):
+            fields = record_fields(self.repo, ci)
+            if fields is not None and "__init__" not in ci.methods and "__new__" not in ci.methods:
+                vals = {}
+                for i, a in enumerate(args):
+                    if i < len(fields):
+                        vals[fields[i]] = a
+                for k, v in kwargs.items():
+                    if k in fields:
+                        vals[k] = v
+                # defaults
+                for st in ci.node.body:
+                    if isinstance(st, ast.AnnAssign) and isinstance(st.target, ast.Name) and st.value is not None \
+                            and st.target.id in fields and st.target.id not in vals:
+                        vals[st.target.id] = ConstEval(self.repo, ci.module).ev(st.value)
+                if set(vals) == set(fields) and all(is_const(v) for v in vals.values()):
+                    return RecordVal(ci.name, tuple((f, vals[f]) for f in fields))
+            return None
+        if isinstance(func, ast.Attribute):
+            # <record>.method(..) / <RepoClass>.classmethod(..)
+            base = self.ev(func.value, local)
+            if isinstance(base, RecordVal):
+                rc = self.repo.classes.get(base.cls, [])
+                if len(rc) == 1:
+                    target = self.repo.lookup_method(rc[0], func.attr)
+                    recv_val = base
+            elif isinstance(base, Sym) and base.text.startswith("class:"):
+                cname = base.text.split(":", 1)[1].split("::")[-1].split(".")[-1]
+                rc = [c for c in self.repo.classes.get(cname, []) if c.qual == base.text.split(":", 1)[1]] or \
+                    self.repo.classes.get(cname, [])
+                if len(rc) == 1:
+                    target = self.repo.lookup_method(rc[0], func.attr)
+                    if target is not None and not any((ap(d) or "") in ("classmethod", "staticmethod")
+                                                      for d in target.node.decorator_list):
+                        target = None
+                    recv_val = base
+        elif isinstance(func, ast.Name):
+            cands = [g for g in self.repo.funcs.get(func.id, []) if g.cls is None and g.parent_fn is None and g.module is self.mod]
+            target = cands[0] if len(cands) == 1 else None
+        if target is None or not all(is_const(a) or isinstance(a, (Sym, RecordVal)) for a in args):
+            return None
+        return self._interpret(target, recv_val, args, kwargs)
+
+    def _interpret(self, target, recv_val, args, kwargs):
+        from .miniinterp import run_block
+        a = target.node.args
+        if a.vararg or a.kwarg:
+            return None
+        params = [p.arg for p in a.posonlyargs + a.args]
+        env: Dict[str, Any] = {}
+        is_static = any((ap(d) or "") == "staticmethod" for d in target.node.decorator_list)
+        if target.cls is not None and not is_static:
+            if not params:
+                return None
+            env[params[0]] = recv_val if recv_val is not None else Sym(f"class:{target.cls.name}")
+            params = params[1:]
+        if len(args) > len(params):
+            return None
+        for p_, v in zip(params, args):
+            env[p_] = v
+        for k, v in kwargs.items():
+            if k not in params or k in env:
+                return None
+            env[k] = v
+        dflt = dict(zip([p.arg for p in a.posonlyargs + a.args][len(a.posonlyargs + a.args) - len(a.defaults):], a.defaults))
+        sub = ConstEval(self.repo, target.module)
+        sub._depth = self._depth + 5
+        for h in ("call_hook", "attr_hook", "binop_hook"):
+            if getattr(self, h, None) is not None:
+                setattr(sub, h, getattr(self, h))
+        for p_ in params:
+            if p_ not in env:
+                if p_ not in dflt:
+                    return None
+                env[p_] = sub.ev(dflt[p_])
+        body = [st for st in target.node.body
+                if not (isinstance(st, ast.Expr) and isinstance(st.value, ast.Constant))]
+        try:
+            out = run_block(sub, body, env)
+        except AnalysisError:
+            return None
+        if out.kind == "return":
+            return out.value
+        if out.kind == "fallthrough":
+            return None if False else _NONE
+        return None
 
     def _name(self, name: str, mod: Optional[Module] = None, seen=None) -> Any:
         mod = mod or self.mod
@@ -321,6 +448,8 @@ class ConstEval:
             r = hook(base, n.attr)
             if r is not None:
                 return r
+        if isinstance(base, RecordVal) and base.has(n.attr):
+            return base.get(n.attr)
         if isinstance(base, EnumVal):
             if n.attr == "value":
                 return base.value
@@ -386,9 +515,14 @@ def _binop(op, a, b):
     raise ValueError(op)
 
 
+_NONE = None
+
+
 def is_const(v) -> bool:
     if isinstance(v, (Sym, CallVal)):
         return False
+    if isinstance(v, RecordVal):
+        return all(is_const(x) for _, x in v.fields)
     if isinstance(v, (tuple, list, frozenset)):
         return all(is_const(x) for x in v)
     if isinstance(v, dict):
